@@ -22,6 +22,21 @@ print("| id | status | obligations discharged | Print Assumptions | quick-tier c
 print("|---|---|---|---|---|---|")
 print("\n".join(rows))
 print()
+print("Theorems per property (names as in coq/Cnn_Props*.v and coq/Link_*.v listed in coq/LINKS_READY):")
+print()
+import glob
+sys.path.insert(0, os.path.join(here, "tools"))
+import vlib
+for pid in ["C%02d" % i for i in range(1, 21)]:
+    names = []
+    for f in sorted(glob.glob(os.path.join(here, "coq", pid + "_Props*.v"))):
+        names += vlib.props_theorems(os.path.basename(f))
+    print("* **%s**: %s" % (pid, ", ".join("`%s`" % n for n in names)))
+lr = os.path.join(here, "coq", "LINKS_READY")
+if os.path.exists(lr):
+    for f in open(lr).read().split():
+        print("* **%s**: %s" % (f, ", ".join("`%s`" % n for n in vlib.props_theorems(f))))
+print()
 print("| seed | property | what it needs | caught by the check |")
 print("|---|---|---|---|")
 sd = os.path.join(here, "seeded")
